@@ -1,6 +1,6 @@
 SPECIFICATION TraceSpec
 CONSTANTS
-  NK = 16800
+  NK = 8600
   NV = 7
   BDepth = 100000
   Obs <- ObsTrace
